@@ -1,0 +1,37 @@
+//go:build verif
+
+package vss
+
+import (
+	"errors"
+
+	"go.dedis.ch/kyber/v4/sign/schnorr"
+)
+
+// SealDealBytes is a verification hook (build tag "verif" only): it seals arbitrary bytes for
+// verifier i exactly the way EncryptedDeal seals that verifier's marshalled deal (fresh signed
+// ephemeral key, HKDF, AES-GCM with the dealer's context).  It lets a test harness act as a dealer
+// that sends a malformed plaintext through the genuine transport.
+func (d *Dealer) SealDealBytes(i int, plain []byte) (*EncryptedDeal, error) {
+	vPub, ok := findPub(d.verifiers, uint32(i))
+	if !ok {
+		return nil, errors.New("dealer: wrong index to generate encrypted deal")
+	}
+	dhSecret := d.suite.Scalar().Pick(d.suite.RandomStream())
+	dhPublic := d.suite.Point().Mul(dhSecret, nil)
+	dhBytes, _ := dhPublic.MarshalBinary()
+	signature, err := schnorr.Sign(d.suite, d.long, dhBytes)
+	if err != nil {
+		return nil, err
+	}
+	gcm, err := newAEAD(d.suite.Hash, dhExchange(d.suite, dhSecret, vPub), d.hkdfContext)
+	if err != nil {
+		return nil, err
+	}
+	nonce := make([]byte, gcm.NonceSize())
+	return &EncryptedDeal{
+		DHKey:     dhPublic,
+		Signature: signature,
+		Cipher:    gcm.Seal(nil, nonce, plain, d.hkdfContext),
+	}, nil
+}
